@@ -128,7 +128,7 @@ def run(tier, V):
     c0 = make_case(base, tier)
     cov = {'evaluations': n, 'distinct_nontrivial': moved, 'cut_by_model': cuts,
            'rule': ('%d cases: (a) single motions h l j k 0 ^ $ | w b e W B E f F t T ; , G + - _ %% { } H M L space backspace with counts {none,1,2,3,7,99} from chosen start positions (with f/t and sticky-column history); '
-                    '(b) random sequences of 2-12 motions; buffers over ASCII, punctuation, blanks, tabs, multi-byte, wide and combining characters, empty lines, empty buffers; windows of 4, 7 and 23 rows.  '
+                    '(b) random sequences of 2-12 motions, with counted yanks in between (the text stays, the counts must not leak); four-byte characters that differ in the last byte as find targets; buffers over ASCII, punctuation, blanks, tabs, multi-byte, wide and combining characters, empty lines, empty buffers; windows of 4, 7 and 23 rows.  '
                     'cursor observed through a marker.  non-trivial = the cursor ended somewhere else than line 1 offset 0.' % n),
            'samples': [{'lines': c0['lines'][:4], 'keys': c0['keys']}]}
     assumptions = ['reference = model_vi (neatvi dialect as listed in DESIGN.md Appendix A where POSIX is silent)', 'left-to-right text only; marks, searches and section motions are not part of C07']
